@@ -620,38 +620,38 @@ M("k5-min-as-fold", "C12", "quiet", "src/compile.rs",
   """                ConstExprEnum::Min(args) => {
                     let mut result = <$const_ty>::MAX;
                     for arg in args {
-                        result = min(result, $fn_ident(arg, consts_unsigned));
+                        result = min(result, $fn_ident(arg, consts_unsigned, bits));
                     }
                     result
                 }""",
   """                ConstExprEnum::Min(args) => args
                     .iter()
-                    .map(|arg| $fn_ident(arg, consts_unsigned))
+                    .map(|arg| $fn_ident(arg, consts_unsigned, bits))
                     .fold(<$const_ty>::MAX, min),""", "same fold with Iterator::fold")
 M("k5-min-as-fold-wrong-identity", "C12", "fire K5", "src/compile.rs",
   """                ConstExprEnum::Min(args) => {
                     let mut result = <$const_ty>::MAX;
                     for arg in args {
-                        result = min(result, $fn_ident(arg, consts_unsigned));
+                        result = min(result, $fn_ident(arg, consts_unsigned, bits));
                     }
                     result
                 }""",
   """                ConstExprEnum::Min(args) => args
                     .iter()
-                    .map(|arg| $fn_ident(arg, consts_unsigned))
+                    .map(|arg| $fn_ident(arg, consts_unsigned, bits))
                     .fold(<$const_ty>::MIN, min),""", "min() folded from MIN is always MIN")
 M("k5-min-as-fold-skips-first", "C12", "fire K5", "src/compile.rs",
   """                ConstExprEnum::Min(args) => {
                     let mut result = <$const_ty>::MAX;
                     for arg in args {
-                        result = min(result, $fn_ident(arg, consts_unsigned));
+                        result = min(result, $fn_ident(arg, consts_unsigned, bits));
                     }
                     result
                 }""",
   """                ConstExprEnum::Min(args) => args
                     .iter()
                     .skip(1)
-                    .map(|arg| $fn_ident(arg, consts_unsigned))
+                    .map(|arg| $fn_ident(arg, consts_unsigned, bits))
                     .fold(<$const_ty>::MAX, min),""", "first argument of min() ignored")
 REVERT("revert-invalid-literal-first", "C12", "fire K1", "21d964e", "pre-fix tree: mistyped usize constant panics before InvalidLiteralType is reported")
 REVERT("revert-max-identity", "C12", "fire K5", "96af733", "pre-fix tree: signed max() starts at 0")
@@ -688,8 +688,8 @@ M("k2-unsorted", "C12", "fire K2", "src/compile.rs",
         }
         let mut sorted_const_defs""", "errors returned in hash order")
 M("k3-trapping-add", "C12", "fire K3", "src/compile.rs",
-  """                    $fn_ident(lhs, consts_unsigned).wrapping_add($fn_ident(rhs, consts_unsigned))""",
-  """                    $fn_ident(lhs, consts_unsigned) + $fn_ident(rhs, consts_unsigned)""", "const addition traps on overflow")
+  """                    $wrap(lhs.wrapping_add(rhs), bits)""",
+  """                    $wrap(lhs + rhs, bits)""", "const addition traps on overflow")
 M("k5-min-identity", "C12", "fire K5", "src/compile.rs",
   """                    let mut result = <$const_ty>::MAX;""",
   """                    let mut result = i64::MAX as $const_ty;""", "min() over unsigned constants ignores values above i64::MAX")
@@ -1918,24 +1918,24 @@ M("b4-quiet-map-first", "C11", "quiet", "src/convert.rs",
             }""", "behaviour-preserving: table written before the output bookkeeping")
 
 # ---------------------------------------------------------------- C12 K6
-REVERT("revert-const-tables", "C12", "fire K6", "ffb1904", "pre-fix tree: non-usize consts are resolved against tables that are never extended")
+# (REVERT of ffb1904 - const tables - no longer applies after b9081bb; the k6-* mutants cover K6)
 M("k6-external-alias-not-recorded", "C12", "fire K6", "src/compile.rs",
   """                    const_sizes.insert(const_name.clone(), *const_sizes.get(&identifier).unwrap());
                 }
-                let n = resolve_const_expr_unsigned(&const_def.value, &consts_unsigned);
+                let n = resolve_const_expr_unsigned(&const_def.value, &consts_unsigned, USIZE_BITS);
                 const_sizes.insert(const_name.clone(), n as usize);
                 consts_unsigned.insert(const_name.clone(), n);""",
   """                    const_sizes.insert(const_name.clone(), *const_sizes.get(&identifier).unwrap());
                 } else {
-                    let n = resolve_const_expr_unsigned(&const_def.value, &consts_unsigned);
+                    let n = resolve_const_expr_unsigned(&const_def.value, &consts_unsigned, USIZE_BITS);
                     const_sizes.insert(const_name.clone(), n as usize);
                     consts_unsigned.insert(const_name.clone(), n);
                 }""", "seed C12-c: a usize const that aliases an external value is recorded as a size only")
 M("k6-quiet-insert-first", "C12", "quiet", "src/compile.rs",
-  """                let n = resolve_const_expr_unsigned(&const_def.value, &consts_unsigned);
+  """                let n = resolve_const_expr_unsigned(&const_def.value, &consts_unsigned, USIZE_BITS);
                 const_sizes.insert(const_name.clone(), n as usize);
                 consts_unsigned.insert(const_name.clone(), n);""",
-  """                let n = resolve_const_expr_unsigned(&const_def.value, &consts_unsigned);
+  """                let n = resolve_const_expr_unsigned(&const_def.value, &consts_unsigned, USIZE_BITS);
                 consts_unsigned.insert(const_name.clone(), n);
                 const_sizes.insert(const_name.clone(), n as usize);""", "behaviour-preserving: order of the two insertions swapped")
 
@@ -2487,7 +2487,7 @@ M("m5-pattern-fields-unsorted", "C08", "quiet", "src/parse.rs",
                         if ignore_remaining_fields {""", "seed C08-d on the current tree: behaviour-preserving since pattern fields are matched by name everywhere (ccbd2fe)")
 M("k6-table-value-from-bits", "C12", "fire K6", "src/compile.rs",
   """                Type::Signed(_) => {
-                    let n = resolve_const_expr_signed(&const_def.value, &consts_signed);
+                    let n = resolve_const_expr_signed(&const_def.value, &consts_signed, bits);
                     consts_signed.insert(const_name.clone(), n);
                 }""",
   """                Type::Signed(_) => {
@@ -3223,6 +3223,19 @@ M("b5-outputs-table-direct", "C11", "fire B5", "src/convert.rs",
             };
             (output_gates, first_output_wire)""",
   """            (vec![0; num_output_wires], first_output_wire)""", "outputs allocated directly again (they may be input wires: not bounded by the file)")
+REVERT("revert-const-wrap-width", "C12", "fire K8", "b9081bb", "pre-fix tree: sums of const expressions keep the evaluator's width")
+M("k8-add-not-reduced", "C12", "fire K8", "src/compile.rs",
+  """                    $wrap(lhs.wrapping_add(rhs), bits)""",
+  """                    lhs.wrapping_add(rhs)""", "only differences are reduced to the width of the type")
+M("k8-width-of-the-evaluator", "C12", "fire K8", "src/compile.rs",
+  """                    let n = resolve_const_expr_unsigned(&const_def.value, &consts_unsigned, bits);
+                    consts_unsigned.insert(const_name.clone(), n);""",
+  """                    let n = resolve_const_expr_unsigned(&const_def.value, &consts_unsigned, 64);
+                    consts_unsigned.insert(const_name.clone(), n);""", "later consts see the value in 64 bits (defect 1b of the hunter)")
+M("k8-quiet-sum-named", "C12", "quiet", "src/compile.rs",
+  """                    $wrap(lhs.wrapping_add(rhs), bits)""",
+  """                    let sum = lhs.wrapping_add(rhs);
+                    $wrap(sum, bits)""", "same reduction, sum named")
 M("b5-file-length-guard-dropped", "C11", "quiet", "src/convert.rs",
   """            if wires_num - input_wires > lines.len() {
                 return Err(FromBristolError::MalformedLine(line_str));
